@@ -109,7 +109,7 @@ class Unit:
         self.node_loader = node_loader
 
     def target(self):
-        return f'{self.relpath}::{self.selector}' + (f'#{self.nth}' if self.nth is not None else '') + (f'::{self.stmt}' if self.stmt else '')
+        return f'{self.relpath}::{self.selector}' + (f'#{self.nth}' if self.nth is not None else '') + (f'::{self.stmt if isinstance(self.stmt, str) else "region"}' if self.stmt else '')
 
     def execute(self):
         """-> (obligations, info dict).  raises Unsupported when undecided."""
